@@ -174,10 +174,10 @@ def call_fit(c, conv):
             del kw['inputans']
         if name == 'legendre':
             del kw['function_name']
-    keep = (x.copy(), y.copy(), w.copy())
+    snap = Snap(x=x, y=y, invvar=w, ia=ia, inputans=ians)
     res, yfit = func_fit(x, y, int(c['nc']), **kw)
-    if not (np.array_equal(x, keep[0]) and np.array_equal(y, keep[1]) and np.array_equal(w, keep[2])):
-        raise AssertionError('func_fit modified its input arrays')
+    if snap.changed():
+        raise AssertionError('func_fit modified the caller\'s array(s) %s' % ', '.join(snap.changed()))
     return np.asarray(res), np.asarray(yfit)
 
 
@@ -218,6 +218,45 @@ def check_fit(ctx, c, exp):
                                                                      c.get('fam'), conv, what),
                     'part': 'fit', 'conv': conv, 'call': jsonable(c), 'expected': jsonable(exp)})
     return n
+
+
+def check_hist(ctx, h, exp):
+    """A call history: the calls of h one after the other, reusing ONE array object for each of x, y, invvar, ia and
+    inputans (only the mask is rewritten in place between the calls); every call is judged against the outcome the
+    specification demands of that call alone."""
+    from pydl.pydlutils.trace import func_fit
+    calls = h['calls']
+    c0 = calls[0]
+    x = np.array([fl(v) for v in c0['xs']])
+    y = np.array([fl(v) for v in c0['y']])
+    w = np.array([fl(v) for v in c0['w']])
+    ians = np.array([fl(v) for v in c0['ians']])
+    ia = np.ones(int(c0['nc']), dtype=bool)
+    ctx.evaluated(len(calls), 'hist-shared-arrays')
+    for k, c in enumerate(calls):
+        what = None
+        try:
+            if (c['xs'], c['y'], c['w'], c['ians']) != (c0['xs'], c0['y'], c0['w'], c0['ians']):
+                raise core.MachineryError('history calls do not share their data')
+            ia[:] = [bool(b) for b in c['ia']]
+            snap = Snap(x=x, y=y, invvar=w, ia=ia, inputans=ians)
+            res, yfit = func_fit(x, y, int(c['nc']), invvar=w, ia=ia, inputans=ians,
+                                 function_name=ALIAS[c['basis']] if k % 2 else c['basis'])
+            what = judge_fit(c, exp[k], 'full64', np.asarray(res), np.asarray(yfit))
+            if what is None and snap.changed():
+                what = 'the caller\'s array(s) %s were modified by the call' % ', '.join(snap.changed())
+        except core.MachineryError:
+            raise
+        except Exception as ex:
+            what = 'raised %s' % describe(ex)
+        if what:
+            report(ctx, ('hist', h['basis'], what.split(':')[0].rstrip('0123456789[] ')),
+                   {'what': 'func_fit history %s nc=%d, call %d of %d with ia=%s (same x, y, invvar, ia, inputans arrays as the '
+                            'calls before it, masks %s): %s' % (h['basis'], h['nc'], k + 1, len(calls), [int(b) for b in c['ia']],
+                                                               [[int(b) for b in cc['ia']] for cc in calls[:k]], what),
+                    'part': 'hist', 'call': jsonable(h), 'expected': jsonable(exp)})
+            break        # the arrays may be damaged: later calls of this history say nothing new
+    return len(calls)
 
 
 # ----------------------------------------------------------------------------------------------
@@ -305,8 +344,6 @@ def judge_tset(c, exp, conv, t, xpos):
         return 'xmin/xmax %r %r expected %s %s' % (t.xmin, t.xmax, fq(exp['xmin']), fq(exp['xmax']))
     if t.nTrace != nt or t.ncoeff != c['nc'] or t.func != c['basis']:
         return 'nTrace/ncoeff/func %r %r %r' % (t.nTrace, t.ncoeff, t.func)
-    if bool(t.has_jump) != bool(c['jump']['on']):
-        return 'has_jump %r' % (t.has_jump,)
     if conv != 'fits':
         w = near_matrix(t.coeff, exp['coeff'], 'coeff') or near_matrix(t.yfit, exp['yfit'], 'yfit')
         if w:
@@ -325,6 +362,9 @@ def judge_tset(c, exp, conv, t, xpos):
     w = near_matrix(y3, exp['yign'], 'traceset2xy(xpos, ignore_jump=True)')
     if w:
         return w
+    # the trace set carries the jump it was given (asked only when the jump has an effect at all)
+    if bool(t.has_jump) != bool(c['jump']['on']) and c['jump']['val'] != (0, 1):
+        return 'has_jump %r' % (t.has_jump,)
     # default grid
     xg, yg = traceset2xy(t)
     grid = [fq(v) for v in exp['grid']]
@@ -401,6 +441,32 @@ def rand_rat(rng, q, lo=-1, hi=1):
     return F(rng.randint(lo * q, hi * q), q)
 
 
+def describe(ex):
+    return '%s: %s' % (type(ex).__name__, str(ex)[:120])
+
+
+class Snap(object):
+    """Bit images of the arrays a caller hands to pydl, taken before the call (law CallerArraysUnchanged)."""
+
+    def __init__(self, **arrays):
+        self.items = {k: (a, a.tobytes(), a.dtype, a.shape) for k, a in arrays.items() if isinstance(a, np.ndarray)}
+
+    def changed(self):
+        return sorted(k for k, (a, img, dt, sh) in self.items.items() if a.dtype != dt or a.shape != sh or a.tobytes() != img)
+
+
+def law(name, disc, pre=True, width=64, crash=False, exc='', **info):
+    r = {'kind': 'law', 'law': name, 'pre': bool(pre), 'disc': int(disc), 'width': width, 'crash': bool(crash), 'exc': exc}
+    r['info'] = info
+    return r
+
+
+def unchanged(snap, call, **info):
+    """One instance of CallerArraysUnchanged: disc = number of caller arrays that differ after `call`."""
+    ch = snap.changed()
+    return law('unchanged', len(ch), call=call, arrays=sorted(snap.items), changed=ch, **info)
+
+
 def basis_records(rng, n):
     recs = []
     for _ in range(n):
@@ -422,23 +488,33 @@ def basis_records(rng, n):
             arg = np.array([xf, xf], dtype=np.float64).T[:, 0]      # a non-contiguous view
         else:
             arg = np.array(xf, dtype=np.float64)
+        rec = {'kind': 'basis', 'basis': basis, 'm': m, 'xs': [rq(x) for x in xs], 'rows': -1, 'cols': -1, 'vals': [],
+               'tol': TOLU32 if conv == 'f32' else TOLU64, 'conv': conv, 'exc': ''}
+        snap = Snap(x=arg)
         try:
             a = np.asarray(fn(arg, m))
-            exc = ''
+            if a.ndim == 2:
+                rec['rows'], rec['cols'] = int(a.shape[0]), int(a.shape[1])
+                rec['vals'] = [[absf(a[d, j]) for d in range(a.shape[0])] for j in range(a.shape[1])]
         except Exception as ex:
-            a = np.zeros((0, 0))
-            exc = '%s: %s' % (type(ex).__name__, str(ex)[:100])
-        rows, cols = (a.shape if a.ndim == 2 else (-1, -1))
-        vals = [[absf(a[d, j]) for d in range(rows)] for j in range(cols)] if rows > 0 else []
-        recs.append({'kind': 'basis', 'basis': basis, 'm': m, 'xs': [rq(x) for x in xs], 'rows': int(rows), 'cols': int(cols),
-                     'vals': vals, 'tol': TOLU32 if conv == 'f32' else TOLU64, 'conv': conv, 'exc': exc})
+            rec['exc'] = describe(ex)
+            rec['rows'], rec['cols'], rec['vals'] = -1, -1, []
+        recs.append(rec)
+        if snap.items:
+            recs.append(unchanged(snap, ALIAS[basis], m=m, conv=conv))
     return recs
 
 
 def fit_records(rng, n):
+    """Small rational fitting problems judged exactly by the specification.  Half of them are call HISTORIES: 2-4
+    func_fit calls one after the other that reuse the same x, y, invvar, ia and inputans array objects with a different
+    free/fixed mask each time; every call is recorded with the arguments the caller supplied (the prescribed values as
+    they were put into the array before the first call)."""
     from pydl.pydlutils.trace import func_fit
     recs = []
-    while len(recs) < n:
+    nfit = 0
+    hist = 0
+    while nfit < n:
         basis = rng.choice(['legendre', 'chebyshev', 'poly', 'chebyshev_split'])
         q = rng.choice([1, 2, 2, 3, 4])
         nc = rng.randint(2 if basis == 'chebyshev_split' else 1, 3 if q > 1 else 2)
@@ -457,23 +533,44 @@ def fit_records(rng, n):
         if sum(1 for wt in w if wt > 0) < 2:        # func_fit's one-good-point shortcut is outside "enough good points"
             continue
         y = [F(rng.randint(-6, 6), rng.choice([1, 1, 2])) for _ in range(npts)]
-        ia = [rng.random() < 0.75 for _ in range(nc)]
-        ians = [F(rng.randint(-3, 3)) for _ in range(nc)]
-        kw = {'invvar': np.array([float(v) for v in w]), 'function_name': rng.choice([basis, ALIAS[basis]])}
-        if not all(ia) or rng.random() < 0.5:
-            kw['ia'] = np.array(ia, dtype=bool)
-            kw['inputans'] = np.array([float(v) for v in ians])
-        try:
-            res, yfit = func_fit(np.array([float(v) for v in xs]), np.array([float(v) for v in y]), nc, **kw)
-            exc = ''
-            res = [absf(v) for v in np.asarray(res).ravel()]
-            yfit = [absf(v) for v in np.asarray(yfit).ravel()]
-        except Exception as ex:
-            exc = '%s: %s' % (type(ex).__name__, str(ex)[:100])
-            res, yfit = [], []
-        recs.append({'kind': 'fit', 'basis': basis, 'nc': nc, 'xs': [rq(v) for v in xs], 'y': [rq(v) for v in y],
-                     'w': [rq(v) for v in w], 'ia': ia, 'ians': [rq(v) for v in ians], 'res': res, 'yfit': yfit,
-                     'tol': TOLU64, 'exc': exc})
+        ncalls = rng.choice([1, 1, 2, 3, 4]) if nc > 1 else 1
+        masks = []
+        while len(masks) < ncalls:
+            mk = [rng.random() < (0.75 if ncalls == 1 else 0.5) for _ in range(nc)]
+            if not masks or mk != masks[-1]:
+                masks.append(mk)
+        if ncalls == 1:
+            ians = [F(rng.randint(-3, 3)) for _ in range(nc)]
+        else:
+            ians = [F(rng.choice([-3, -2, -1, 1, 2, 3])) for _ in range(nc)]
+        name = rng.choice([basis, ALIAS[basis]])
+        xa = np.array([float(v) for v in xs])
+        ya = np.array([float(v) for v in y])
+        wa = np.array([float(v) for v in w])
+        iaa = np.ones(nc, dtype=bool)
+        ansa = np.array([float(v) for v in ians])
+        hist += 1
+        for call, mk in enumerate(masks):
+            iaa[:] = mk
+            kw = {'invvar': wa, 'function_name': name}
+            if ncalls > 1 or not all(mk) or rng.random() < 0.5:
+                kw['ia'] = iaa
+                kw['inputans'] = ansa
+            rec = {'kind': 'fit', 'basis': basis, 'nc': nc, 'xs': [rq(v) for v in xs], 'y': [rq(v) for v in y],
+                   'w': [rq(v) for v in w], 'ia': list(mk), 'ians': [rq(v) for v in ians], 'res': [], 'yfit': [],
+                   'tol': TOLU64, 'exc': '', 'hist': hist, 'call': call, 'ncalls': ncalls}
+            snap = Snap(x=xa, y=ya, invvar=wa, ia=iaa, inputans=ansa)
+            try:
+                res, yfit = func_fit(xa, ya, nc, **kw)
+                rec['res'] = [absf(v) for v in np.asarray(res).ravel()]
+                rec['yfit'] = [absf(v) for v in np.asarray(yfit).ravel()]
+            except Exception as ex:
+                rec['exc'] = describe(ex)
+                rec['res'], rec['yfit'] = [], []
+            recs.append(rec)
+            nfit += 1
+            recs.append(unchanged(snap, 'func_fit', hist=hist, call_index=call, ncalls=ncalls))
+            # the history goes on with the arrays as the code left them
     return recs
 
 
@@ -529,11 +626,14 @@ def tseval_records(rng, n):
         xp = [[F(rng.randint(4 * a, 4 * b), rng.choice([1, 2, 4, 4])) for _ in range(k)] for _ in range(nt)]
         xp = [[min(max(x, F(a)), F(b)) for x in row] for row in xp]
         cf = np.array([[float(v) for v in r] for r in coeff])
-        t = TraceSet(fits_rec(basis, float(xmin), float(xmax), cf, (float(lo), float(hi), float(val)) if on else None))
         xpa = np.array([[float(v) for v in r] for r in xp])
         exc = ''
+        first = rng.random() < 0.5
+        snap = Snap(xpos=xpa)
         try:
-            if rng.random() < 0.5:
+            t = TraceSet(fits_rec(basis, float(xmin), float(xmax), cf, (float(lo), float(hi), float(val)) if on else None))
+            snap = Snap(xpos=xpa, coeff=np.asarray(t.coeff))
+            if first:
                 _, yv = t.xy(xpa, ignore_jump=ign)
             else:
                 _, yv = traceset2xy(t, xpa, ignore_jump=ign)
@@ -543,13 +643,14 @@ def tseval_records(rng, n):
             vals = [[absf(v) for v in row] for row in np.asarray(yv)]
             gvals = [[absf(np.asarray(yg)[kk, g - 1]) for g in gi] for kk in range(nt)]
         except Exception as ex:
-            exc = '%s: %s' % (type(ex).__name__, str(ex)[:100])
+            exc = describe(ex)
             vals, gvals, gi, gs = [], [], [], grid_summary(np.zeros((0, 0)), nt)
         recs.append({'kind': 'tseval', 'basis': basis, 'nc': nc, 'coeff': [[rq(v) for v in r] for r in coeff],
                      'xmin': rq(xmin), 'xmax': rq(xmax),
                      'jump': {'on': on, 'lo': rq(lo), 'hi': rq(hi), 'val': rq(val)}, 'ign': bool(ign),
                      'xp': [[rq(v) for v in r] for r in xp], 'vals': vals, 'grid': gs, 'gi': gi, 'gvals': gvals,
                      'tol': TOLU64, 'exc': exc})
+        recs.append(unchanged(snap, 'traceset2xy', basis=basis, nc=nc))
     return recs
 
 
@@ -574,14 +675,22 @@ def design_matrix(basis, x, nc):
     return np.hstack([(x >= 0).astype(np.float64)[:, None], chebyshev.chebvander(x, nc - 2)])
 
 
-def law(name, disc, pre=True, width=64, **info):
-    r = {'kind': 'law', 'law': name, 'pre': bool(pre), 'disc': int(disc), 'width': width}
-    r['info'] = info
-    return r
+def wls_reference(A64, y64, w64, ia, ians64):
+    """The independent solver of the M3 part: numpy.linalg.lstsq on the sqrt(weight)-scaled free columns."""
+    good = w64 > 0
+    free = np.nonzero(ia)[0]
+    fixed = np.nonzero(~ia)[0]
+    sw = np.sqrt(w64[good])
+    ysub = y64 - A64[:, fixed] @ ians64[fixed]
+    ref = ians64.copy()
+    if len(free):
+        ref[free] = np.linalg.lstsq(A64[good][:, free] * sw[:, None], ysub[good] * sw, rcond=None)[0]
+    return ref
 
 
 def fit_law_records(rng, nprng, n):
-    """Random float fitting problems: func_fit against numpy.linalg.lstsq (wls), fixed kept, zero weights, exact."""
+    """Random float fitting problems: func_fit against numpy.linalg.lstsq (wls), fixed kept, zero weights, exact,
+    caller arrays unchanged; the calls of one problem reuse the same ia / inputans array objects (a call history)."""
     from pydl.pydlutils.trace import func_fit
     recs = []
     for it in range(n):
@@ -602,57 +711,79 @@ def fit_law_records(rng, nprng, n):
                 zero[np.nonzero(side)[0]] = False
         w[zero] = 0
         ctrue = nprng.normal(0, 2, nc)
-        A = design_matrix(basis, x, nc)
-        y = (A @ ctrue + nprng.normal(0, 0.5, npts)).astype(dt)
+        A64 = np.asarray(design_matrix(basis, x, nc), dtype=np.float64)
+        y = (A64 @ ctrue + nprng.normal(0, 0.5, npts)).astype(dt)
         ia = nprng.random(nc) < 0.7
         if it % 3 == 0:
             ia[:] = True
         ians = nprng.normal(0, 2, nc).astype(dt)
+        ians = np.where(np.abs(ians) < 0.05, dt(1.0), ians).astype(dt)
+        want_ia, want_ians = ia.copy(), ians.copy()              # what the caller means; the arrays below are handed over
         kw = {'invvar': w, 'function_name': basis}
         if not ia.all() or it % 2:
-            kw['ia'] = ia.copy()
-            kw['inputans'] = ians.copy()
+            kw['ia'] = ia
+            kw['inputans'] = ians
         info = {'basis': basis, 'nc': nc, 'npts': npts, 'seed_index': it}
-        try:
-            res, yfit = func_fit(x, y, nc, **kw)
-        except Exception as ex:
-            recs.append(law('wls', 2 * 10**9, width=width, exc='%s: %s' % (type(ex).__name__, str(ex)[:100]), **info))
-            continue
-        good = np.asarray(w, dtype=np.float64) > 0
-        free = np.nonzero(ia)[0]
-        fixed = np.nonzero(~ia)[0]
-        A64 = np.asarray(A, dtype=np.float64)
         y64 = np.asarray(y, dtype=np.float64)
-        sw = np.sqrt(np.asarray(w, dtype=np.float64)[good])
-        ysub = y64 - A64[:, fixed] @ np.asarray(ians, dtype=np.float64)[fixed]
-        ref = np.asarray(ians, dtype=np.float64).copy()
-        if len(free):
-            ref[free] = np.linalg.lstsq(A64[good][:, free] * sw[:, None], ysub[good] * sw, rcond=None)[0]
-        sc = max(1.0, float(np.abs(ref).max()))
-        d = max(float(np.abs(np.asarray(res, dtype=np.float64) - ref).max()),
-                float(np.abs(np.asarray(yfit, dtype=np.float64) - A64 @ ref).max()))
-        recs.append(law('wls', units(d, sc), pre=good.sum() >= nc, width=width, nfree=int(len(free)), **info))
-        if len(fixed):
-            recs.append(law('fixed', int(sum(1 for j in fixed if res[j] != ians[j])), width=width, **info))
-        if zero.any():
-            y2 = y.copy()
-            y2[w == 0] += nprng.normal(0, 100, int((w == 0).sum())).astype(dt)
-            res2, yfit2 = func_fit(x, y2, nc, **kw)
-            d2 = max(float(np.abs(res2 - res).max()), float(np.abs(yfit2 - yfit).max()))
-            recs.append(law('zerow', units(d2, sc), width=width, **info))
-        # exact combination of float coefficients, fixed ones prescribed at their true values
-        y3 = (A64 @ ctrue).astype(dt)
-        kw3 = dict(kw)
-        if 'inputans' in kw3:
-            kw3['inputans'] = ctrue.astype(dt)
-        res3, yfit3 = func_fit(x, y3, nc, **kw3)
-        d3 = float(np.abs(np.asarray(res3, dtype=np.float64) - ctrue.astype(dt)).max())
-        recs.append(law('exact', units(d3, max(1.0, float(np.abs(ctrue).max()))), width=width, **info))
+        w64 = np.asarray(w, dtype=np.float64)
+        stage = 'wls'
+        try:
+            snap = Snap(x=x, y=y, invvar=w, ia=ia, inputans=ians)
+            res, yfit = func_fit(x, y, nc, **kw)
+            recs.append(unchanged(snap, 'func_fit', **info))
+            ref = wls_reference(A64, y64, w64, want_ia, np.asarray(want_ians, dtype=np.float64))
+            sc = max(1.0, float(np.abs(ref).max()))
+            d = max(float(np.abs(np.asarray(res, dtype=np.float64) - ref).max()),
+                    float(np.abs(np.asarray(yfit, dtype=np.float64) - A64 @ ref).max()))
+            recs.append(law('wls', units(d, sc), pre=(w64 > 0).sum() >= nc, width=width, nfree=int(want_ia.sum()), **info))
+            fixed = np.nonzero(~want_ia)[0]
+            stage = 'fixed'
+            if len(fixed):
+                recs.append(law('fixed', int(sum(1 for j in fixed if res[j] != want_ians[j])), width=width, **info))
+            stage = 'zerow'
+            if zero.any():
+                y2 = y.copy()
+                y2[w == 0] += nprng.normal(0, 100, int((w == 0).sum())).astype(dt)
+                res2, yfit2 = func_fit(x, y2, nc, **kw)             # same ia / inputans objects again
+                d2 = max(float(np.abs(res2 - res).max()), float(np.abs(yfit2 - yfit).max()))
+                recs.append(law('zerow', units(d2, sc), width=width, **info))
+            stage = 'wls'
+            if 'ia' in kw and nc > 1:
+                # the history goes on: same arrays, the mask turned over (what was free is now fixed and vice versa)
+                flip = ~want_ia
+                if not flip.any():
+                    flip[rng.randrange(nc)] = True
+                if flip.all():
+                    flip[rng.randrange(nc)] = False
+                ia[:] = flip
+                snap = Snap(x=x, y=y, invvar=w, ia=ia, inputans=ians)
+                res4, yfit4 = func_fit(x, y, nc, **kw)
+                recs.append(unchanged(snap, 'func_fit', second_call=True, **info))
+                ref4 = wls_reference(A64, y64, w64, flip, np.asarray(want_ians, dtype=np.float64))
+                sc4 = max(1.0, float(np.abs(ref4).max()))
+                d4 = max(float(np.abs(np.asarray(res4, dtype=np.float64) - ref4).max()),
+                         float(np.abs(np.asarray(yfit4, dtype=np.float64) - A64 @ ref4).max()))
+                recs.append(law('wls', units(d4, sc4), width=width, nfree=int(flip.sum()), second_call=True, **info))
+                ia[:] = want_ia
+            stage = 'exact'
+            # exact combination of float coefficients, fixed ones prescribed at their true values
+            y3 = (A64 @ ctrue).astype(dt)
+            kw3 = dict(kw)
+            if 'inputans' in kw3:
+                kw3['inputans'] = ctrue.astype(dt)
+            res3, yfit3 = func_fit(x, y3, nc, **kw3)
+            d3 = float(np.abs(np.asarray(res3, dtype=np.float64) - ctrue.astype(dt)).max())
+            recs.append(law('exact', units(d3, max(1.0, float(np.abs(ctrue).max()))), width=width, **info))
+        except core.MachineryError:
+            raise
+        except Exception as ex:
+            recs.append(law(stage, 2 * 10**9, width=width, crash=True, exc=describe(ex), **info))
     return recs
 
 
 def tset_law_records(rng, nprng, n):
-    """Random float trace sets: fit-then-evaluate, coefficients = func_fit on the normalised positions, jump laws."""
+    """Random float trace sets: fit-then-evaluate, coefficients = func_fit on the normalised positions, jump laws,
+    round trip, caller arrays unchanged."""
     from pydl.pydlutils.trace import TraceSet, func_fit, traceset2xy, xy2traceset
     recs = []
     for it in range(n):
@@ -705,37 +836,53 @@ def tset_law_records(rng, nprng, n):
             kw['xmin'], kw['xmax'] = x0 - 2.0, x0 + nx + 1.5
         info = {'basis': basis, 'nc': nc, 'nTrace': nt, 'nx': nx, 'jump': bool(jump), 'seed_index': it,
                 'jumpargs': [repr(kw.get(kk)) for kk in ('xjumplo', 'xjumphi', 'xjumpval')]}
+        stage = 'fitxy'
         try:
+            snap = Snap(xpos=xpos, ypos=ypos, invvar=kw.get('invvar'), inmask=kw.get('inmask'))
             t = (xy2traceset if it % 2 else TraceSet)(xpos, ypos, **kw)
+            recs.append(unchanged(snap, 'xy2traceset' if it % 2 else 'TraceSet', **info))
+            snap = Snap(xpos=xpos, coeff=np.asarray(t.coeff), yfit=np.asarray(t.yfit))
             _, y1 = t.xy(xpos)
             _, y2 = traceset2xy(t, xpos)
+            recs.append(unchanged(snap, 'traceset2xy', **info))
+            yfit = np.asarray(t.yfit, dtype=np.float64)
+            sc = max(1.0, float(np.abs(yfit).max()))
+            recs.append(law('fitxy', units(max(float(np.abs(np.asarray(y1) - yfit).max()),
+                                               float(np.abs(np.asarray(y2) - yfit).max())), sc), width=width, **info))
+            # what the caller asked for is what the trace set says about itself
+            stage = 'tscoeff'
+            if bool(t.has_jump) != bool(jump) and kw.get('xjumpval') != 0:
+                raise ValueError('has_jump is %r for jump arguments %r' % (t.has_jump, info['jumpargs']))
+            dmax = 0.0
+            coeff = np.asarray(t.coeff)
+            for k in range(nt):
+                xv = t.xnorm(xpos[k, :], bool(t.has_jump))
+                r, _ = func_fit(xv, ypos[k, :], nc, invvar=invvar[k, :] * inmask[k, :].astype(dt), function_name=basis)
+                dmax = max(dmax, float(np.abs(r - coeff[k, :]).max()))
+            recs.append(law('tscoeff', units(dmax, max(1.0, float(np.abs(coeff).max()))), width=width, **info))
+            if jump and width == 64:
+                below = xpos[:, (xpos <= kw['xjumplo']).all(axis=0)]
+                above = xpos[:, (xpos >= kw['xjumphi']).all(axis=0)]
+                stage = 'jumpbelow'
+                if below.shape[1]:
+                    d = np.abs(t.xy(below)[1] - t.xy(below, ignore_jump=True)[1]).max()
+                    recs.append(law('jumpbelow', units(d, sc), pre=bool((below <= kw['xjumplo']).all()), **info))
+                stage = 'jumpabove'
+                if above.shape[1]:
+                    d = np.abs(t.xy(above)[1] - t.xy(above + kw['xjumpval'], ignore_jump=True)[1]).max()
+                    recs.append(law('jumpabove', units(d, sc), pre=bool((above >= kw['xjumphi']).all()), **info))
+            stage = 'roundtrip'
+            if width == 64 and it % 2 == 0 and 'xmin' not in kw:
+                # round trip on the default grid: positions -> trace set -> positions -> trace set
+                tk = {k2: v for k2, v in kw.items() if k2 in ('func', 'ncoeff', 'xjumplo', 'xjumphi', 'xjumpval')}
+                xg, yg = traceset2xy(t)
+                t2 = xy2traceset(xg, yg, xmin=t.xmin, xmax=t.xmax, **tk)
+                recs.append(law('roundtrip', units(np.abs(np.asarray(t2.coeff) - coeff).max(),
+                                                   max(1.0, float(np.abs(coeff).max()))), **info))
+        except core.MachineryError:
+            raise
         except Exception as ex:
-            recs.append(law('fitxy', 2 * 10**9, width=width, exc='%s: %s' % (type(ex).__name__, str(ex)[:100]), **info))
-            continue
-        sc = max(1.0, float(np.abs(t.yfit).max()))
-        recs.append(law('fitxy', units(max(float(np.abs(y1 - t.yfit).max()), float(np.abs(y2 - t.yfit).max())), sc),
-                        width=width, **info))
-        dmax = 0.0
-        for k in range(nt):
-            xv = t.xnorm(xpos[k, :], jump)
-            r, _ = func_fit(xv, ypos[k, :], nc, invvar=invvar[k, :] * inmask[k, :].astype(dt), function_name=basis)
-            dmax = max(dmax, float(np.abs(r - t.coeff[k, :]).max()))
-        recs.append(law('tscoeff', units(dmax, max(1.0, float(np.abs(t.coeff).max()))), width=width, **info))
-        if jump and width == 64:
-            below = xpos[:, (xpos <= kw['xjumplo']).all(axis=0)]
-            above = xpos[:, (xpos >= kw['xjumphi']).all(axis=0)]
-            if below.shape[1]:
-                d = np.abs(t.xy(below)[1] - t.xy(below, ignore_jump=True)[1]).max()
-                recs.append(law('jumpbelow', units(d, sc), pre=bool((below <= kw['xjumplo']).all()), **info))
-            if above.shape[1]:
-                d = np.abs(t.xy(above)[1] - t.xy(above + kw['xjumpval'], ignore_jump=True)[1]).max()
-                recs.append(law('jumpabove', units(d, sc), pre=bool((above >= kw['xjumphi']).all()), **info))
-        if width == 64 and it % 2 == 0 and 'xmin' not in kw:
-            # round trip on the default grid: positions -> trace set -> positions -> trace set
-            tk = {k2: v for k2, v in kw.items() if k2 in ('func', 'ncoeff', 'xjumplo', 'xjumphi', 'xjumpval')}
-            xg, yg = traceset2xy(t)
-            t2 = xy2traceset(xg, yg, xmin=t.xmin, xmax=t.xmax, **tk)
-            recs.append(law('roundtrip', units(np.abs(t2.coeff - t.coeff).max(), max(1.0, float(np.abs(t.coeff).max()))), **info))
+            recs.append(law(stage, 2 * 10**9, width=width, crash=True, exc=describe(ex), **info))
     return recs
 
 
@@ -750,35 +897,51 @@ def fixture_records(rng):
         path = os.path.join(tdir, name)
         if not os.path.exists(path):
             raise core.MachineryError('fixture missing: ' + path)
+        stage = 'fitxy'
         with fits.open(path) as hdul:
-            full = TraceSet(hdul[1].data)
-            xg, _ = traceset2xy(full)
-            xmin, xmax = F(float(full.xmin)), F(float(full.xmax))
-            recs.append({'kind': 'grid', 'xmin': rq(xmin), 'xmax': rq(xmax), 'nTrace': int(full.coeff.shape[0]),
-                         'grid': grid_summary(xg, full.nTrace), 'fixture': name})
-            rows = sorted(rng.sample(range(full.nTrace), 8))
-            jump = (full.xjumplo, full.xjumphi, full.xjumpval) if full.has_jump else None
-            t = TraceSet(fits_rec(full.func, float(full.xmin), float(full.xmax), np.asarray(full.coeff)[rows, :], jump))
-            if np.asarray(t.coeff).shape != (8, full.ncoeff) or bool(t.has_jump) != bool(full.has_jump):
-                raise core.MachineryError('could not rebuild a sub-table of ' + name)
-            xg, yg = traceset2xy(t)
-            kw = {}
-            sc = float(np.abs(yg).max())
-            if t.has_jump:
-                kw = {'xjumplo': t.xjumplo, 'xjumphi': t.xjumphi, 'xjumpval': t.xjumpval}
-                lo, hi, val = float(t.xjumplo), float(t.xjumphi), float(t.xjumpval)
-                below = xg[:, xg[0, :] <= lo]
-                above = xg[:, xg[0, :] >= hi]
-                db = np.abs(t.xy(below)[1] - t.xy(below, ignore_jump=True)[1]).max(axis=1)
-                da = np.abs(t.xy(above)[1] - t.xy(above + val, ignore_jump=True)[1]).max(axis=1)
+            table = hdul[1].data
+            ntrace = int(table['COEFF'][0].shape[0])
+            rows = sorted(rng.sample(range(ntrace), 8))
+            try:
+                full = TraceSet(table)
+                xg, _ = traceset2xy(full)
+                xmin, xmax = F(float(full.xmin)), F(float(full.xmax))
+                recs.append({'kind': 'grid', 'xmin': rq(xmin), 'xmax': rq(xmax), 'nTrace': ntrace,
+                             'grid': grid_summary(xg, ntrace), 'fixture': name})
+                jump = (full.xjumplo, full.xjumphi, full.xjumpval) if full.has_jump else None
+                if bool(full.has_jump) != ('XJUMPLO' in table.dtype.names):
+                    raise ValueError('has_jump is %r for %s' % (full.has_jump, name))
+                t = TraceSet(fits_rec(full.func, float(full.xmin), float(full.xmax), np.asarray(full.coeff)[rows, :], jump))
+                if np.asarray(t.coeff).shape != (8, full.ncoeff) or bool(t.has_jump) != bool(full.has_jump):
+                    raise ValueError('a sub-table of %s gives a different trace set' % name)
+                xg, yg = traceset2xy(t)
+                kw = {}
+                sc = float(np.abs(yg).max())
+                if t.has_jump:
+                    kw = {'xjumplo': t.xjumplo, 'xjumphi': t.xjumphi, 'xjumpval': t.xjumpval}
+                    lo, hi, val = float(t.xjumplo), float(t.xjumphi), float(t.xjumpval)
+                    below = xg[:, xg[0, :] <= lo]
+                    above = xg[:, xg[0, :] >= hi]
+                    stage = 'jumpbelow'
+                    db = np.abs(t.xy(below)[1] - t.xy(below, ignore_jump=True)[1]).max(axis=1)
+                    stage = 'jumpabove'
+                    da = np.abs(t.xy(above)[1] - t.xy(above + val, ignore_jump=True)[1]).max(axis=1)
+                    for k in range(8):
+                        recs.append(law('jumpbelow', units(db[k], sc), fixture=name, trace=rows[k]))
+                        recs.append(law('jumpabove', units(da[k], sc), fixture=name, trace=rows[k]))
+                stage = 'roundtrip'
+                snap = Snap(xpos=xg, ypos=yg)
+                t2 = xy2traceset(xg, yg, ncoeff=t.ncoeff, func=t.func, **kw)
+                recs.append(unchanged(snap, 'xy2traceset', fixture=name))
                 for k in range(8):
-                    recs.append(law('jumpbelow', units(db[k], sc), fixture=name, trace=rows[k]))
-                    recs.append(law('jumpabove', units(da[k], sc), fixture=name, trace=rows[k]))
-            t2 = xy2traceset(xg, yg, ncoeff=t.ncoeff, func=t.func, **kw)
-            for k in range(8):
-                recs.append(law('roundtrip', units(np.abs(t2.coeff[k] - t.coeff[k]).max(), max(1.0, float(np.abs(t.coeff[k]).max()))),
-                                fixture=name, trace=rows[k]))
-            recs.append(law('fitxy', units(np.abs(t2.xy(xg)[1] - t2.yfit).max(), float(np.abs(t2.yfit).max())), fixture=name))
+                    recs.append(law('roundtrip', units(np.abs(t2.coeff[k] - t.coeff[k]).max(),
+                                                       max(1.0, float(np.abs(t.coeff[k]).max()))), fixture=name, trace=rows[k]))
+                stage = 'fitxy'
+                recs.append(law('fitxy', units(np.abs(t2.xy(xg)[1] - t2.yfit).max(), float(np.abs(t2.yfit).max())), fixture=name))
+            except core.MachineryError:
+                raise
+            except Exception as ex:
+                recs.append(law(stage, 2 * 10**9, crash=True, exc=describe(ex), fixture=name))
     return recs
 
 
@@ -829,7 +992,9 @@ def record_direction(ctx):
             continue
         if bad[i] in ('notwellposed', 'precondition', 'unknownlaw', 'unknownkind'):
             raise core.MachineryError('record %d rejected for a harness reason (%s): %r' % (i, bad[i], rec))
-        brief = {kk: v for kk, v in rec.items() if kk not in ('vals', 'gvals', 'res', 'yfit', 'origin')}
+        if rec.get('exc'):
+            bad[i] = '%s: the real code raised %s' % (bad[i], rec['exc'])
+        brief = {kk: v for kk, v in rec.items() if kk not in ('vals', 'gvals', 'res', 'yfit', 'origin', 'exc')}
         report(ctx, ('record', rec['kind'], rec.get('basis'), bad[i].split(':')[0]),
                {'what': 'recorded %s rejected by Trace_TraceSetPoly (%s): %s' % (rec['kind'], bad[i], str(brief)[:220]),
                 'part': 'record', 'why': bad[i], 'record': rec})
@@ -892,6 +1057,14 @@ def run(ctx):
                 ctx.nontriv(('fit', c['basis'], c['nc'], c['xs'], c['y'], c['w'], c['ia'], c['ians']))
             if nstate % 3000 == 2:
                 ctx.sample({'fit_case': jsonable(c), 'expected': jsonable(exp)})
+        elif kind == 'hist':
+            check_hist(ctx, c, exp)
+            ctx.validated(len(c['calls']))
+            nstate += 1
+            ctx.nontriv(('hist', c['basis'], c['nc'], c['fm'], tuple(cc['ia'] for cc in c['calls']), c['calls'][0]['xs']))
+            if 'hist' not in box:
+                box['hist'] = True
+                ctx.sample({'history_case': jsonable(c), 'expected': jsonable(exp)})
         elif kind == 'tset':
             check_tset(ctx, c, exp)
             ctx.validated()
@@ -926,6 +1099,8 @@ def replay(ctx, case):
         check_fit(ctx, untuple(case['call']), untuple(case['expected']))
     elif part == 'tset':
         check_tset(ctx, untuple(case['call']), untuple(case['expected']))
+    elif part == 'hist':
+        check_hist(ctx, untuple(case['call']), untuple(case['expected']))
     elif part == 'record':
         # re-make the record from the real code (same generator, same seed, same index) and let the spec judge it again
         o = case['record']['origin']
